@@ -9,6 +9,8 @@ const TOKENS: &[&[u8]] = &[
     b"=", b" ", b"<a>", b"</a>", b"<a ", b"<a/>", b"xmlns:", b":", b"\0", b"[", b"]", b"\xEF\xBB\xBF", b"\xFE\xFF", b"\xFF\xFE",
     b"<a b=\"1\" b=\"2\">", b"<a b>", b"<a b=>", b"<a b=c>", b"<a b=\"1>", b"<a b='1' c=\"2\"d=\"3\">", b"&amp;", b"&#x;", b"&bogus;",
     b"<?xml version=\"1.0\"?>", b"<?xml", b"--", b"<:a>", b"<a:>", b"<:>", b"< a>", b"</ a>", b"<a\n>", b"\r\n", b"\t", b"<a/ >",
+    b"<?xml version=\"1.0\" encoding=\"\"?>", b"<?xml version=\"1.0\" encoding='8'?>", b"<?xml encoding=\"u\"?>", b"<?xml version=\"\"?>", b"<?xml?>", b"<?xml ?>",
+    b"<?xml version=\"1.0\" standalone=\"\"?>", b"<!DOCTYPE>", b"<!DOCTYPE >", b"<!DOCTYPE r [", b"<![CDATA[", b"<!---->", b"<!--->", b"<?>", b"<??>", b"</>", b"<>", b"< >", b"<a a=''/>", b"<a =''/>",
     b"<1>", b"<->", b"<a..b>", b"<\xD0\xBF>", b"<x a:b:c='1'/>", b"<xmlns:a/>", b"<a xmlns:=''/>", b"]]", b"<![", b"<![CDATA[]]>",
 ];
 
@@ -185,14 +187,16 @@ pub fn hostile(rng: &mut Rng) -> (Vec<u8>, &'static str, Vec<&'static str>) {
                     }
                 }
                 1 => {
-                    let n = rng.range(100, 800);
+                    let n = *rng.pick(&[21usize, 33, 65, 100, 300, 800]);
                     v.extend_from_slice(b"<r><p");
+                    // names mixing <stem><digits> and <stem><digits><letters> (natural-order comparators trip on them)
+                    let sfx = ["", "b", "x", ""];
                     for i in 0..n {
-                        v.extend_from_slice(format!(" a{i}=\"v\"").as_bytes());
+                        v.extend_from_slice(format!(" a{i}{}=\"v\"", sfx[i % 4]).as_bytes());
                     }
                     v.extend_from_slice(b"/><p");
                     for i in (0..n).rev().step_by(2) {
-                        v.extend_from_slice(format!(" a{i}='w'").as_bytes());
+                        v.extend_from_slice(format!(" a{i}{}='w'", sfx[i % 4]).as_bytes());
                     }
                     v.extend_from_slice(b"/></r>");
                 }
